@@ -250,6 +250,21 @@ impl MT935 {
                     continue;
                 }
 
+                // The fixed offsets below are character offsets only for ASCII content
+                if !value.is_ascii() {
+                    errors.push(SwiftValidationError::format_error(
+                        "T26",
+                        "23",
+                        &value,
+                        "3!a[2!n]11x",
+                        &format!(
+                            "Sequence {}: Field 23 contains characters outside the SWIFT character set",
+                            idx + 1
+                        ),
+                    ));
+                    continue;
+                }
+
                 // Extract currency (first 3 characters)
                 let currency = &value[..3];
 
